@@ -1,5 +1,6 @@
 import Dcg.Proofs.FieldLift
 import Dcg.Proofs.FieldUnionMember
+import Dcg.Proofs.FieldRef
 /-
 C05 — required, nullable and default semantics of each member are carried over.
 
@@ -552,5 +553,119 @@ theorem union_member_witness :
     d7 uo.asVec = true ∧
     ub.valid = true ∧ ub.flag = false ∧ renderU ub = ⟨true, false, .no, .none⟩ ∧ (semU ub).acceptsNull = true ∧
     (semU ub).mustSupply = true := by decide
+
+/-! ### `$ref`-typed members: a reference to a definition that admits null
+
+`DataType.type_hint` marks a type optional when the model its reference points to is nullable
+(`type: ["object", "null"]`). The test is evaluated when the modules are rendered — after every
+definition of every document has been parsed — so it must not matter where the definition stands
+relative to the schema that refers to it. Model: `Dcg.Model.FieldRef`. -/
+
+/-- The rule reads the DEFINITION, wherever it stands among the parse events: when `r` is defined
+(once) as nullable / not nullable, every `DataType` that refers to `r` ends up with `is_optional`
+equal to that — whether it was built before or after the definition was parsed, in the same
+document or in another one, and whatever else was parsed in between. -/
+theorem ref_rule_reads_the_definition (evs : List Ev) (r : Nat) (n : Bool)
+    (hm : Ev.define r n ∈ evs) (hn : (definedRefs evs).Nodup) : lazyOptional evs r = n :=
+  lazyOptional_of_mem hm hn
+
+/-- ORDER INDEPENDENCE, any number of definitions and members: reordering the parse events in any
+way (definitions before or after their users, files loaded in another order) changes `is_optional`
+of no reference. -/
+theorem ref_rule_independent_of_definition_order (a b : List Ev) (h : a.Perm b)
+    (hn : (definedRefs a).Nodup) (r : Nat) : lazyOptional a r = lazyOptional b r :=
+  lazyOptional_perm h hn r
+
+/-- non-vacuity: two definitions (one nullable), three members, two orders -/
+example : lazyFlags [.use 0, .define 1 false, .use 1, .define 0 true, .use 0] = [true, false, true] ∧
+    lazyFlags [.define 0 true, .define 1 false, .use 0, .use 1, .use 0] = [true, false, true] := by decide
+
+/-- What the guarded regression looks like: the same test evaluated when the `DataType` is
+CONSTRUCTED sees `source = None` for a definition parsed later — the forward reference loses its
+null while the backward one keeps it (so reordering the definitions hides the fault). -/
+theorem ref_rule_at_construction_loses_forward_references :
+    eagerFlags [.use 0, .define 0 true] = [false] ∧ lazyFlags [.use 0, .define 0 true] = [true] ∧
+    eagerFlags [.define 0 true, .use 0] = [true] ∧ lazyFlags [.define 0 true, .use 0] = [true] := by decide
+
+/-- The member: its field record, its rendered shape and what it means in the target library do not
+depend on whether the reference is a forward or a backward one. -/
+theorem ref_member_independent_of_definition_order (r : RefVec) (f : Bool) :
+    fromRef { r with forward := f } = fromRef r ∧ renderR { r with forward := f } = renderR r ∧
+    semR { r with forward := f } = semR r := by
+  have hfl : ({ r with forward := f } : RefVec).flag = r.flag := by rw [RefVec.flag_eq, RefVec.flag_eq]
+  have h1 : fromRef { r with forward := f } = fromRef r := by
+    unfold fromRef RefVec.asVec
+    rw [hfl]
+  refine ⟨h1, ?_, ?_⟩
+  · simp only [renderR, renderRD, h1]
+  · simp only [semR, renderR, renderRD, h1]
+
+/-- Reduction to the scalar space: a `$ref`-typed member renders as the scalar member `asVec`, whose
+null source is "type list" exactly when the definition is `type: [..., "null"]` — in either order.
+Every theorem above about `render` / `sem` of valid scalar vectors speaks about `$ref`-typed members
+through `asVec`. -/
+theorem ref_member_reduces_to_scalar (r : RefVec) :
+    renderR r = render r.asVec ∧ semR r = sem r.asVec ∧
+    r.asVec.nullsrc = (if definitionNullable r.target then .typelist else .no) := by
+  refine ⟨renderR_eq r, semR_eq r, ?_⟩
+  simp only [RefVec.asVec, RefVec.flag_eq]
+
+/-- FULL STRENGTH of clause 5 for `$ref`-typed members (false on the pinned tree, see
+`ref_keyword_on_definition_witness`) -/
+def ref_member_accepts_null_full : Prop :=
+  ∀ r : RefVec, r.valid = true → r.admitsNull = true → (semR r).acceptsNull = true
+
+/-- CLAUSE 5 for `$ref`-typed members: a member that refers to a definition whose type list contains
+"null" accepts null — every kind, every option vector, required or not, wherever the `required`
+entry is written, FORWARD OR BACKWARD reference. -/
+theorem ref_member_accepts_null (r : RefVec) (ht : r.target = .typelist) : (semR r).acceptsNull = true := by
+  apply semOf_acceptsNull_of_opt
+  apply renderFieldD_opt_of_dio
+  show r.flag = true
+  rw [RefVec.flag_eq, ht]; rfl
+
+/-- the excluded family is real: the definition admits null through the OpenAPI keyword
+(`nullable: true` next to `type: object`); the keyword is not read for a model, so a required member
+referring to it is written `n: T` — also under strict-nullable -/
+theorem ref_keyword_on_definition_witness :
+    let r : RefVec := ⟨⟨.v2, .no, true, .none, .scalar, false, ⟨true, false, false, false, false, false⟩, .own, .plain, false⟩, .flag, true⟩
+    r.valid = true ∧ r.admitsNull = true ∧ r.keywordOnDefinition = true ∧
+    renderR r = ⟨false, false, .no, .none⟩ ∧ (semR r).acceptsNull = false := by decide
+
+theorem ref_member_accepts_null_refuted : ¬ ref_member_accepts_null_full := by
+  intro h
+  have := h ⟨⟨.v2, .no, true, .none, .scalar, false, ⟨true, false, false, false, false, false⟩, .own, .plain, false⟩, .flag, true⟩
+    (by decide) (by decide)
+  revert this; decide
+
+/-- CLAUSES 1/6 for `$ref`-typed members, EXACT: a member the parser keeps required need not be
+supplied precisely in the three scalar families evaluated on `asVec` (D7: the v2 template appends
+`= None` because `is_optional` got set; the same in the msgspec template; pydantic-1 bare `Optional`). -/
+theorem ref_member_required_exact (r : RefVec) (hv : r.valid = true) (ho : r.asVec.omittable = false) :
+    (semR r).mustSupply = false ↔ (d7 r.asVec || d7m r.asVec || v1Bare r.asVec) = true := by
+  have hva : r.asVec.valid = true := by
+    simp only [RefVec.valid, Bool.and_eq_true] at hv; exact hv.1
+  rw [semR_eq]
+  exact effectively_required_exact r.asVec hva ho
+
+/-- A required `$ref`-typed member whose definition is not nullable must be supplied — full strength. -/
+theorem ref_member_plain_definition_must_supply (r : RefVec) (hv : r.valid = true)
+    (hr : r.base.inreq = true) (hd : r.base.dflt = .none) (hf : r.base.opts.fo = false)
+    (ht : definitionNullable r.target = false) : (semR r).mustSupply = true := by
+  have hva : r.asVec.valid = true := by
+    simp only [RefVec.valid, Bool.and_eq_true] at hv; exact hv.1
+  rw [semR_eq]
+  refine required_nonnullable_must_supply r.asVec hva hr hd hf ?_
+  simp [Vec.admitsNull, RefVec.asVec, RefVec.flag_eq, ht, NullSrc.admitsNull]
+
+/-- non-vacuity and the defect families met through a reference: a required member referring to a
+nullable definition, forward reference, is `n: Optional[T]` for dataclasses (must be supplied, accepts
+null) and `n: Optional[T] = None` in pydantic-2 output (D7) -/
+theorem ref_member_witness :
+    let o : Opts := ⟨false, false, false, false, false, false⟩
+    let dc : RefVec := ⟨⟨.dc, .no, true, .none, .scalar, false, o, .own, .plain, false⟩, .typelist, true⟩
+    let v2 : RefVec := ⟨⟨.v2, .no, true, .none, .scalar, false, o, .own, .plain, false⟩, .typelist, true⟩
+    dc.valid = true ∧ renderR dc = ⟨true, false, .no, .none⟩ ∧ (semR dc).mustSupply = true ∧ (semR dc).acceptsNull = true ∧
+    v2.valid = true ∧ renderR v2 = ⟨true, false, .no, .lit .none⟩ ∧ d7 v2.asVec = true := by decide
 
 end Dcg.Props.C05
